@@ -20,6 +20,7 @@ type RedisLock struct {
 	ttl     time.Duration
 	lc      *redislock.Client
 	l       *redislock.Lock
+	cancel  context.CancelFunc
 }
 
 // New creates a lock
@@ -49,14 +50,14 @@ func New(cli redislock.RedisClient, key string, waitTimeout, lockTTL time.Durati
 func (r *RedisLock) Lock(ctx context.Context) (context.Context, error) {
 	lockCtx, cancel := context.WithTimeout(ctx, r.timeout)
 	defer cancel()
-	return r.lock(lockCtx, opts)
+	return r.lock(ctx, lockCtx, opts)
 }
 
 // TryLock tries to lock
 // returns error if the lock is already acquired by someone else
 // will not retry to get lock
 func (r *RedisLock) TryLock(ctx context.Context) (context.Context, error) {
-	return r.lock(ctx, nil)
+	return r.lock(ctx, ctx, nil)
 }
 
 // Unlock releases the lock
@@ -65,18 +66,27 @@ func (r *RedisLock) Unlock(ctx context.Context) error {
 	if r.l == nil {
 		return redislock.ErrLockNotHeld
 	}
+	if r.cancel != nil {
+		defer r.cancel()
+	}
 
 	lockCtx, cancel := context.WithTimeout(ctx, r.ttl)
 	defer cancel()
 	return r.l.Release(lockCtx)
 }
 
-func (r *RedisLock) lock(ctx context.Context, opts *redislock.Options) (context.Context, error) {
-	l, err := r.lc.Obtain(ctx, r.key, r.timeout, r.ttl, opts)
+// lock obtains the key within lockCtx and returns a context derived from ctx for the holder
+func (r *RedisLock) lock(ctx, lockCtx context.Context, opts *redislock.Options) (context.Context, error) {
+	l, err := r.lc.Obtain(lockCtx, r.key, r.timeout, r.ttl, opts)
 	if err != nil {
 		return nil, err
 	}
 
 	r.l = l
-	return context.TODO(), nil // no need wrapped, not like etcd
+	// nobody refreshes the key, it expires ttl after it was set and somebody else may take the lock then:
+	// the holder's context ends at that moment (or when the lock is released), like the etcd lock's does
+	// when its session is lost
+	rCtx, cancel := context.WithTimeout(ctx, r.ttl)
+	r.cancel = cancel
+	return rCtx, nil
 }
